@@ -32,7 +32,7 @@ def cfg(*, full, maxd, mod, seed, nparts, part, wide, stencil):
          f" CheckStencil = {'TRUE' if stencil else 'FALSE'}\nSPECIFICATION Spec\n")
     for i in INVS:
         s += f"INVARIANT {i}\n"
-    s += "PROPERTY NoOperandMutation\n"
+    s += "PROPERTY NoOperandMutation\nPROPERTY RebuildSame\n"
     return s
 
 
@@ -102,18 +102,19 @@ def run(ck: Check):
     if ck.thorough:
         # every tree of depth <= 2, all operators over a sample of them (depth 3); then the wide parameter
         # variants (more constants, frozen inputs, matrices, a 4x4x4 lattice for 3 inputs) to depth 1 + sample
-        plans = [(dict(full=2, maxd=3, mod=401, wide=False), 16), (dict(full=1, maxd=2, mod=11, wide=True), 4)]
+        plans = [(dict(full=2, maxd=3, mod=401, wide=False), 24), (dict(full=1, maxd=2, mod=11, wide=True), 4)]
         nproc, timeout = 8, 1750
     else:
-        plans = [(dict(full=1, maxd=2, mod=23, wide=False), 6)]
+        plans = [(dict(full=1, maxd=2, mod=37, wide=False), 6)]
         nproc, timeout = 6, 170
     # ---- 1. the specification's own properties incl. the finite-difference self-check of its
     #         differentiation rules (every tree of depth <= 1, wide parameter variants in thorough)
-    r = ck.tlc("FuncAlgebra", cfg(full=1, maxd=1, mod=1, seed=ck.seed, nparts=1, part=0, wide=ck.thorough, stencil=True),
-               workers=1, timeout=900, deadlock=False, coverage=True, require_actions=("Evaluate", "Reject"))
-    ck.extra["stencil_checked_instances"] = sum(1 for ln in r.out.splitlines() if ln.startswith('<< "CASE"'))
+    #         - three TLC runs in the same pool as the enumeration parts (no replay)
+    n_self = 3
+    jobs = [(str(ck.work / f"selfcheck-part{p}"),
+             cfg(full=1, maxd=1, mod=1, seed=ck.seed, nparts=n_self, part=p, wide=ck.thorough, stencil=True), 900, False)
+            for p in range(n_self)]
     # ---- 2. enumeration + replay, split over parallel TLC runs / worker processes
-    jobs = []
     for k, (plan, nparts) in enumerate(plans):
         for p in range(nparts):
             c = cfg(seed=ck.seed, nparts=nparts, part=p, stencil=False, **plan)
@@ -121,15 +122,22 @@ def run(ck: Check):
     ctx = mp.get_context("fork")
     with cf.ProcessPoolExecutor(max_workers=nproc, mp_context=ctx) as ex:
         results = list(ex.map(_part, jobs))
-    n_cases = n_rej = n_trees = n_diag = 0
+    n_cases = n_rej = n_trees = n_diag = n_stencil = 0
     ops: dict[str, int] = {}
     for p, o in enumerate(results):
-        ck.tlc_runs.append({"module": "FuncAlgebra", "part": p, "distinct": o["distinct"], "generated": o["generated"],
-                            "depth": o["depth"], "wall_s": o["wall_tlc"], "replay_s": o.get("wall_replay")})
+        ck.tlc_runs.append({"module": "FuncAlgebra", "run": Path(jobs[p][0]).name, "distinct": o["distinct"],
+                            "generated": o["generated"], "depth": o["depth"], "wall_s": o["wall_tlc"],
+                            "replay_s": o.get("wall_replay")})
         if o["error"]:
-            raise MachineryError(f"TLC failed on FuncAlgebra part {p}: {o['error']}")
+            raise MachineryError(f"TLC failed on FuncAlgebra {Path(jobs[p][0]).name}: {o['error']}")
         ck.states += o["distinct"]
         ck.transitions += o["generated"]
+        if p < n_self:
+            # operands -> done -> rebuilt: three states per instance (Reject instances, two, are in part 0)
+            n_stencil += (o["distinct"] - (48 if p == 0 else 0)) // 3
+            continue
+        if o["distinct"] < 3 * o["n_cases"]:
+            raise MachineryError("vacuity: fewer than three states (operands, done, rebuilt) per instance")
         n_cases += o["n_cases"]
         n_rej += o["n_rejects"]
         n_trees += o["n_trees"]
@@ -148,7 +156,7 @@ def run(ck: Check):
     if missing:
         raise MachineryError(f"vacuity: operators never at the root of a replayed instance: {missing}")
     ck.traces = n_cases + n_rej
-    ck.extra.update({"trees": n_trees, "instances": n_cases, "reject_instances": n_rej,
+    ck.extra.update({"stencil_checked_instances": n_stencil, "trees": n_trees, "instances": n_cases, "reject_instances": n_rej,
                      "instances_per_root_operator": dict(sorted(ops.items())), "diagnosed_instances": n_diag,
                      "plans": [dict(pl, nparts=n) for pl, n in plans]})
     ck.exhaustive = True  # every instance of the bounded model printed by TLC is replayed
@@ -160,6 +168,11 @@ def run(ck: Check):
         "aggregate_max is compared only where the maximum is attained once (differentiable points)",
         "convex linearisation: gemseo's own definition (reciprocal in the step x - xhat), points with a step +-2^j",
         "second-order Taylor polynomial: symmetric Hessian approximations only",
+        "functions with a sparse Jacobian (MDOLinearFunction on scipy CSR coefficients: leaves Lc, Mc) are enumerated only "
+        "under MDOLinearFunction's own methods (negation, offset, restrict, normalize) and number operands; the generic "
+        "operator makers on sparse Jacobians are not claimed (Mc*M raises NotImplementedError, Mc*array returns an object array)",
+        "restrictions freeze one input, or two inputs of a 3-input function given in increasing and in decreasing index "
+        "order; negative indices are not documented by the API and not enumerated",
     ]
 
 
